@@ -8,5 +8,8 @@ import LasModel.Audit.C10
 import LasModel.Audit.C08
 import LasModel.Audit.C07
 import LasModel.Audit.C02
+import LasModel.Audit.C01
+import LasModel.Audit.C03
+import LasModel.Audit.C04
 import LasModel.Model.Date
 import LasModel.Driver.Main
